@@ -2073,6 +2073,21 @@ impl Fs {
                             .copy_from_slice(&data[src_offset..src_offset + len]);
                     }
                 }
+            } else if let PendingOp::SetLen {
+                path: p,
+                len: new_len,
+                ..
+            } = op
+            {
+                // A pending truncation discards the bytes past the new length:
+                // if the file is extended again later they must read as zeros.
+                if p == &content_path || self.path_renamed_to(p, &content_path) {
+                    let read_end = offset + to_read as u64;
+                    if *new_len < read_end {
+                        let from = ((*new_len).max(offset) - offset) as usize;
+                        buf[from..to_read].fill(0);
+                    }
+                }
             }
         }
 
